@@ -428,10 +428,17 @@ impl AsyncFleet {
                 }
                 Err(err) => {
                     let should_retry = is_retryable_error(&err);
+                    // Anything other than an application-level reply leaves the
+                    // cached connection in an unknown state (its reader may have
+                    // died on a malformed frame, or the peer closed it while
+                    // idle), and a dead client fails every later call: drop it
+                    // so the next attempt or call reconnects.
+                    if !matches!(err, RepeError::ServerError { .. }) {
+                        invalidate_client(&state).await;
+                    }
                     last_error = Some(err);
 
                     if should_retry {
-                        invalidate_client(&state).await;
                         if attempt + 1 < self.options.retry_policy.max_attempts {
                             tokio::time::sleep(self.options.retry_policy.delay).await;
                         }
@@ -481,10 +488,17 @@ impl AsyncFleet {
                 }
                 Err(err) => {
                     let should_retry = is_retryable_error(&err);
+                    // Anything other than an application-level reply leaves the
+                    // cached connection in an unknown state (its reader may have
+                    // died on a malformed frame, or the peer closed it while
+                    // idle), and a dead client fails every later call: drop it
+                    // so the next attempt or call reconnects.
+                    if !matches!(err, RepeError::ServerError { .. }) {
+                        invalidate_client(&state).await;
+                    }
                     last_error = Some(err);
 
                     if should_retry {
-                        invalidate_client(&state).await;
                         if attempt + 1 < self.options.retry_policy.max_attempts {
                             tokio::time::sleep(self.options.retry_policy.delay).await;
                         }
@@ -530,6 +544,7 @@ fn is_retryable_error(err: &RepeError) -> bool {
                 | std::io::ErrorKind::ConnectionRefused
                 | std::io::ErrorKind::ConnectionReset
                 | std::io::ErrorKind::ConnectionAborted
+                | std::io::ErrorKind::BrokenPipe
                 | std::io::ErrorKind::NotConnected
                 | std::io::ErrorKind::UnexpectedEof
                 | std::io::ErrorKind::WouldBlock
